@@ -12,6 +12,7 @@ import (
 
 	"github.com/LemoFoundationLtd/lemochain-core/chain/account"
 	"github.com/LemoFoundationLtd/lemochain-core/chain/params"
+	"github.com/LemoFoundationLtd/lemochain-core/chain/types"
 	"github.com/LemoFoundationLtd/lemochain-core/chain/vm"
 	"github.com/LemoFoundationLtd/lemochain-core/common"
 	"github.com/LemoFoundationLtd/lemochain-core/common/crypto"
@@ -42,6 +43,9 @@ type c16Step struct {
 	isReward    bool
 	retLen      uint64
 	suicided    bool
+	wt          []int // ChangeLogTypes pushed by this step (observed when the next step is in the same frame)
+	jabs        int   // absolute journal length before the step
+	prun        string // pure precompile: outcome of running it independently ("ok"/"err"/"")
 }
 
 type c16Tracer struct {
@@ -61,20 +65,66 @@ type c16Tracer struct {
 	bPaddr       uint64
 	bReward      bool
 	badDepth     string
+	destructed   map[string]bool // accounts (dump key) that executed SELFDESTRUCT
+	prePanic     string
+	prePanicSig  string
+	prePanicGas  uint64
+	firstTypes   []int // log types pushed between the entry and the first executed step
+	sawFirst     bool
+	// asset entry
+	aEarly      bool
+	aAmountZero bool
 }
 
 func isCallFamily(op byte) bool {
 	return op == opCALL || op == opCALLCODE || op == opDELEGATECALL || op == opSTATICCALL
 }
 
-// c16PreWrites: address -> declared state-modifying (vm.VerifPrecompiles)
-var c16PreWrites = func() map[uint64]bool {
-	m := map[uint64]bool{}
-	for _, p := range vm.VerifPrecompiles() {
-		m[p.Addr] = p.WritesState
+// c16PreWrites: address -> declared state-modifying (vm.VerifPrecompiles), filled by c16EmitTable
+var c16PreWrites = map[uint64]bool{}
+
+func c16LogTypes(logs []*types.ChangeLog) []int {
+	out := make([]int, len(logs))
+	for i, l := range logs {
+		out[i] = int(l.LogType)
 	}
-	return m
-}()
+	return out
+}
+
+// c16RLE: run-length encoding of a list of log types, e.g. "1x2 2 15"
+func c16RLE(ts []int) string {
+	var sb strings.Builder
+	for i := 0; i < len(ts); {
+		j := i
+		for j < len(ts) && ts[j] == ts[i] {
+			j++
+		}
+		if sb.Len() > 0 {
+			sb.WriteByte(',')
+		}
+		if j-i > 1 {
+			fmt.Fprintf(&sb, "%dx%d", ts[i], j-i)
+		} else {
+			fmt.Fprintf(&sb, "%d", ts[i])
+		}
+		i = j
+	}
+	if sb.Len() == 0 {
+		return "-"
+	}
+	return sb.String()
+}
+
+func c16Tags(ts []int) string {
+	if len(ts) == 0 {
+		return "-"
+	}
+	var p []string
+	for _, t := range ts {
+		p = append(p, fmt.Sprint(t))
+	}
+	return strings.Join(p, ",")
+}
 
 // classify returns the callee class, the precompile address, its RequiredGas and whether the code
 // declares it state-modifying.
@@ -104,6 +154,16 @@ func (t *c16Tracer) begin(w *c16World, cs *c16Case, am *account.Manager) {
 		t.bCallee, t.bPaddr, t.bPreq, t.bReward = t.classify(cs.Target, func() []byte { return cs.input })
 	case "static":
 		t.bCallee, t.bPaddr, t.bPreq, t.bReward = t.classify(cs.Target, func() []byte { return cs.input })
+	case "asset":
+		t.bCallee, t.bPaddr, t.bPreq, t.bReward = t.classify(cs.Target, func() []byte {
+			if ta, err := types.GetTransferAsset(cs.assetTx); err == nil {
+				return ta.Input
+			}
+			return nil
+		})
+		if ta, err := types.GetTransferAsset(cs.assetTx); err == nil && ta.Amount != nil {
+			t.aAmountZero = ta.Amount.Sign() == 0
+		}
 	case "create":
 		t.bCanTransfer = am.GetAccount(cs.Caller).GetBalance().Cmp(value) >= 0
 		switch {
@@ -134,12 +194,29 @@ func (t *c16Tracer) CaptureState(env *vm.EVM, pc uint64, op vm.OpCode, gas, cost
 	if depth != env.VerifDepth() && t.badDepth == "" {
 		t.badDepth = fmt.Sprintf("tracer depth %d != evm.depth %d", depth, env.VerifDepth())
 	}
+	if byte(op) == opSELFDESTRUCT && err == nil {
+		if t.destructed == nil {
+			t.destructed = map[string]bool{}
+		}
+		a := contract.GetAddress()
+		t.destructed[fmt.Sprintf("%x", a[len(a)-4:])] = true
+	}
 	if len(t.steps) >= t.max {
 		t.overflow = true
 		return nil
 	}
+	logs := t.am.GetChangeLogs()
+	if !t.sawFirst {
+		t.sawFirst = true
+		t.firstTypes = c16LogTypes(logs[t.jlen0:])
+	}
+	if n := len(t.steps); n > 0 {
+		if prev := &t.steps[n-1]; prev.depth == depth && prev.err == "" && len(logs) > prev.jabs {
+			prev.wt = c16LogTypes(logs[prev.jabs:])
+		}
+	}
 	data := stack.Data()
-	s := c16Step{depth: depth, pc: pc, op: byte(op), gas: gas, cost: cost, stackLen: len(data), ro: env.VerifReadOnly(),
+	s := c16Step{jabs: len(logs), depth: depth, pc: pc, op: byte(op), gas: gas, cost: cost, stackLen: len(data), ro: env.VerifReadOnly(),
 		temp: env.VerifCallGasTemp(), jlen: len(t.am.GetChangeLogs()) - t.jlen0, canTransfer: true, callee: "none"}
 	if err != nil {
 		s.err = c16Err(err)
@@ -168,6 +245,22 @@ func (t *c16Tracer) CaptureState(env *vm.EVM, pc uint64, op vm.OpCode, gas, cost
 			}
 			if err == nil {
 				s.callee, s.paddr, s.preq, s.isReward = t.classify(addr, func() []byte { return memory.Get(inOff.Int64(), inSize.Int64()) })
+				if s.callee == "pre" && !s.isReward {
+					// precompiles 1..8 are pure: run them independently of the EVM to know the outcome
+					in := memory.Get(inOff.Int64(), inSize.Int64())
+					var pmsg string
+					s.prun, pmsg = SafeMsg(func() string {
+						if _, e := vm.PrecompiledContracts[addr].Run(in); e != nil {
+							return "err"
+						}
+						return "ok"
+					})
+					if s.prun == "panic" {
+						t.prePanic = fmt.Sprintf("precompile %d (RequiredGas %d) panics on input %x: %s", s.paddr, s.preq, in, pmsg)
+						t.prePanicGas = s.preq
+						t.prePanicSig = fmt.Sprintf("c16/panic/precompile-%d-%s", s.paddr, c16Slug(pmsg))
+					}
+				}
 			}
 		}
 	case b == opCREATE:
@@ -193,6 +286,7 @@ func (t *c16Tracer) CaptureState(env *vm.EVM, pc uint64, op vm.OpCode, gas, cost
 		}
 	case b == opSELFDESTRUCT:
 		s.suicided = t.am.GetAccount(self).GetSuicide()
+
 	}
 	t.steps = append(t.steps, s)
 	return nil
@@ -219,6 +313,12 @@ func (t *c16Tracer) CaptureFault(env *vm.EVM, pc uint64, op vm.OpCode, gas, cost
 
 // check: direct trace-level oracle (depth bound, gas bound per step, 63/64 rule).
 func (t *c16Tracer) check(c *Ctx, cs *c16Case) {
+	if t.prePanic != "" {
+		c.Count("pre-indep:panics-standalone")
+		if t.prePanicGas <= 105000000 { // affordable within one block's gas limit: a transaction can crash the node
+			c.Fail(t.prePanicSig, t.prePanic, cs)
+		}
+	}
 	if t.badDepth != "" {
 		c.Fail("c16/trace-inconsistent", t.badDepth, cs)
 	}
@@ -276,16 +376,36 @@ func (t *c16Tracer) emit(c *Ctx, cs *c16Case, res c16Result) {
 		return
 	}
 	if t.overflow {
-		c.Count("trace:too-long")
+		c.Count("trace:NOT-REPLAYED-over-20000-steps")
 		return
 	}
-	c.Count("trace:replayed")
-	pok := res.err == "nil"
-	pw := 0
-	if t.bReward && pok {
-		pw = 1
+	if len(t.steps) > cs.maxTrace {
+		// long traces are replayed in full only while the per-run budget lasts (line volume)
+		if t.w.longBudget <= 0 {
+			c.Count("trace:NOT-REPLAYED-long-budget-exhausted")
+			return
+		}
+		t.w.longBudget--
+		c.Count("trace:replayed-long")
 	}
-	c.Op(fmt.Sprintf("begin %s %d %d %d %s %d %d %d %d", cs.Entry, cs.Gas, b01(cs.Value != 0), b01(t.bCanTransfer), orNone(t.bCallee), t.bPaddr, t.bPreq, b01(pok), pw), "ok")
+	c.Count("trace:replayed")
+	pok := res.err == "nil" && res.nonVM == ""
+	ptags := "-"
+	if t.bReward && pok {
+		ptags = fmt.Sprint(int(account.StorageLog))
+	}
+	if cs.Entry == "asset" {
+		wt := "-"
+		switch {
+		case len(t.steps) > 0:
+			wt = c16Tags(t.firstTypes)
+		case pok:
+			wt = c16Tags(res.newTypes)
+		}
+		c.Op(fmt.Sprintf("begin-asset %d %d %d %s %d %d %d %s", cs.Gas, b01(res.nonVM != ""), b01(t.aAmountZero), orNone(t.bCallee), t.bPaddr, t.bPreq, b01(pok), wt), "ok")
+	} else {
+		c.Op(fmt.Sprintf("begin %s %d %d %d %s %d %d %d %s", cs.Entry, cs.Gas, b01(cs.Value != 0), b01(t.bCanTransfer), orNone(t.bCallee), t.bPaddr, t.bPreq, b01(pok), ptags), "ok")
+	}
 	for i := range t.steps {
 		s := &t.steps[i]
 		var next *c16Step
@@ -299,32 +419,46 @@ func (t *c16Tracer) emit(c *Ctx, cs *c16Case, res c16Result) {
 				cost = s.cost - s.temp
 			}
 		}
-		w := 0
+		var wt []int
 		if s.err == "" && s.fault == "" {
 			switch {
 			case s.op == opSELFDESTRUCT:
 				if !s.suicided {
-					w = 2
+					wt = []int{int(account.BalanceLog), int(account.SuicideLog)}
 				}
 			case s.op == opSSTORE || (s.op >= opLOG0 && s.op <= opLOG0+4):
 				if next != nil && next.depth == s.depth {
-					w = next.jlen - s.jlen
+					wt = s.wt
+					want := int(account.StorageLog)
+					if s.op != opSSTORE {
+						want = int(account.AddEventLog)
+					}
+					if len(wt) != 1 || wt[0] != want {
+						c.Fail("c16/trace-inconsistent", fmt.Sprintf("op 0x%x pushed change logs %v, expected exactly one of type %d", s.op, wt, want), cs)
+					}
 				}
 			}
 		}
-		spok, spw := false, 0
+		spok, sptags := false, "-"
 		if s.callee == "pre" && next != nil && next.top != nil {
 			spok = next.top.Sign() != 0
 			if s.isReward && spok {
-				spw = 1
+				sptags = fmt.Sprint(int(account.StorageLog))
+			}
+			// independent check of the fed "precompile succeeded" flag for the pure precompiles
+			if s.prun == "err" && spok {
+				c.Fail("c16/trace-inconsistent", fmt.Sprintf("precompile %d: Run fails on this input but the call reported success", s.paddr), cs)
+			}
+			if s.prun != "" {
+				c.Count("pre-indep:" + s.prun + "/reported=" + fmt.Sprint(spok))
 			}
 		}
 		req := "0"
 		if s.req != nil {
 			req = s.req.String()
 		}
-		line := fmt.Sprintf("s %d %d %d %d %d %d %d %d %d %s %d %s %d %d %d %d", s.op, s.stackLen, cost, b01(s.err == "gasoverflow"), b01(gasErr), b01(s.fault == "exec"),
-			w, s.retLen, b01(s.value), req, b01(s.canTransfer), s.callee, s.paddr, s.preq, b01(spok), spw)
+		line := fmt.Sprintf("s %d %d %d %d %d %d %s %d %d %s %d %s %d %d %d %s", s.op, s.stackLen, cost, b01(s.err == "gasoverflow"), b01(gasErr), b01(s.fault == "exec"),
+			c16Tags(wt), s.retLen, b01(s.value), req, b01(s.canTransfer), s.callee, s.paddr, s.preq, b01(spok), sptags)
 		verdict := "ok"
 		switch {
 		case s.err != "":
@@ -353,16 +487,23 @@ func (t *c16Tracer) emit(c *Ctx, cs *c16Case, res c16Result) {
 			if s.ro {
 				c.Count("callop:under-readonly")
 			}
+			if s.depth == int(params.CallCreateDepth)+1 && verdict == "ok" {
+				c.Count(fmt.Sprintf("callop:0x%x/refused-at-depth-limit", s.op))
+			}
 		}
 		if s.ro {
 			c.Count("step:readonly:" + verdict)
 		}
 	}
 	ec := res.err
+	if ec == "nil" && res.nonVM != "" {
+		ec = "err"
+	}
 	if ec != "nil" && ec != "revert" {
 		ec = "err"
 	}
-	c.Op("end", fmt.Sprintf("%s %d %d", ec, res.gasLeft, res.logsPost-t.jlen0))
+	// the kinds (ChangeLogTypes) of everything the call left in the journal, run-length encoded
+	c.Op("end", fmt.Sprintf("%s %d %d %s", ec, res.gasLeft, res.logsPost-t.jlen0, c16RLE(res.newTypes)))
 	c.Count("end:" + ec)
 }
 
@@ -377,7 +518,7 @@ func orNone(s string) string {
 // VERIF_C16_GEN=<file> is set, regenerates the baked Lean table.
 func c16EmitTable(c *Ctx, w *c16World) {
 	am := account.NewManager(w.genesis, w.db)
-	tab := vm.VerifJumpTable(am)
+	tab := vm.VerifJumpTable(am, w.eoa)
 	type kv struct {
 		k string
 		v uint64
@@ -396,16 +537,24 @@ func c16EmitTable(c *Ctx, w *c16World) {
 		{"opCallCode", uint64(vm.CALLCODE)},
 		{"opDelegateCall", uint64(vm.DELEGATECALL)},
 		{"opStaticCall", uint64(vm.STATICCALL)},
+		{"logBalance", uint64(account.BalanceLog)},
+		{"logCode", uint64(account.CodeLog)},
+		{"logEvent", uint64(account.AddEventLog)},
 	}
 	for _, p := range ps {
 		c.Op(fmt.Sprintf("param %s %d", p.k, p.v), "ok")
 	}
-	pres := vm.VerifPrecompiles()
+	pres := vm.VerifPrecompiles(am)
 	var writing []string
+	guarded := true
 	for _, p := range pres {
-		c.Op(fmt.Sprintf("pre %d %d", p.Addr, b01(p.WritesState)), "ok")
+		c16PreWrites[p.Addr] = p.WritesState
+		c.Op(fmt.Sprintf("pre %d %d %d", p.Addr, b01(p.WritesState), b01(p.Guarded)), "ok")
 		if p.WritesState {
 			writing = append(writing, fmt.Sprint(p.Addr))
+			if !p.Guarded {
+				guarded = false // probed: RunPrecompiledContract does not refuse it under readOnly
+			}
 		}
 	}
 	c.Op(fmt.Sprintf("precount %d", len(pres)), "ok")
@@ -419,7 +568,7 @@ func c16EmitTable(c *Ctx, w *c16World) {
 		}
 		fmt.Fprintf(&sb, "%s := %d", p.k, p.v)
 	}
-	fmt.Fprintf(&sb, ",\n    writingPre := [%s],\n    guardPre := true", strings.Join(writing, ", "))
+	fmt.Fprintf(&sb, ",\n    writingPre := [%s],\n    guardPre := %v", strings.Join(writing, ", "), guarded)
 	sb.WriteString(" }\n\n/-- precompile addresses installed in vm.PrecompiledContracts -/\ndef precompiles : List Nat := [")
 	for i, p := range pres {
 		if i > 0 {
@@ -427,7 +576,7 @@ func c16EmitTable(c *Ctx, w *c16World) {
 		}
 		fmt.Fprint(&sb, p.Addr)
 	}
-	sb.WriteString("]\n\n/-- columns: valid minStack maxStack writes halts reverts jumps returns hasMem minGas -/\ndef rows : List OpInfo := [\n")
+	sb.WriteString("]\n\n/-- columns: valid minStack maxStack writes halts reverts jumps returns hasMem minGas constGas -/\ndef rows : List OpInfo := [\n")
 	valid := 0
 	for i, o := range tab {
 		if o.Valid {
@@ -436,7 +585,7 @@ func c16EmitTable(c *Ctx, w *c16World) {
 				c.Fail("c16/table-probe", fmt.Sprintf("opcode 0x%x: stack interval=%v gas probe ok=%v", i, o.StackInterval, o.GasProbeOK), nil)
 			}
 		}
-		c.Op(fmt.Sprintf("op %d %d %d %d %d %d %d %d %d %d %d", i, b01(o.Valid), o.MinStack, o.MaxStack, b01(o.Writes), b01(o.Halts), b01(o.Reverts), b01(o.Jumps), b01(o.Returns), b01(o.HasMem), o.MinGas), "ok")
+		c.Op(fmt.Sprintf("op %d %d %d %d %d %d %d %d %d %d %d %d", i, b01(o.Valid), o.MinStack, o.MaxStack, b01(o.Writes), b01(o.Halts), b01(o.Reverts), b01(o.Jumps), b01(o.Returns), b01(o.HasMem), o.MinGas, b01(o.ConstGas)), "ok")
 		sep := ","
 		if i == 255 {
 			sep = ""
@@ -444,7 +593,7 @@ func c16EmitTable(c *Ctx, w *c16World) {
 		if !o.Valid {
 			fmt.Fprintf(&sb, "  OpInfo.invalid%s -- 0x%02x\n", sep, i)
 		} else {
-			fmt.Fprintf(&sb, "  ⟨true, %d, %d, %v, %v, %v, %v, %v, %v, %d⟩%s -- 0x%02x %s\n", o.MinStack, o.MaxStack, o.Writes, o.Halts, o.Reverts, o.Jumps, o.Returns, o.HasMem, o.MinGas, sep, i, vm.OpCode(i).String())
+			fmt.Fprintf(&sb, "  ⟨true, %d, %d, %v, %v, %v, %v, %v, %v, %d, %v⟩%s -- 0x%02x %s\n", o.MinStack, o.MaxStack, o.Writes, o.Halts, o.Reverts, o.Jumps, o.Returns, o.HasMem, o.MinGas, o.ConstGas, sep, i, vm.OpCode(i).String())
 		}
 	}
 	sb.WriteString("]\n\ndef table : Table := { params := params, rows := rows }\n\nend LemoModel.EvmTable\n")
